@@ -69,6 +69,7 @@ func checkMain(args []string) {
 		rng.Shuffle(len(state), func(i, j int) { state[i], state[j] = state[j], state[i] })
 		c := sCase{Fam: "check", Kind: "check", Build: build, State: state}
 		stt.class("build:" + build)
+		w.Inflight(c)
 		ev := runSchemaCase(c, nil)
 		stt.Calls++
 		cls := "clean"
